@@ -58,6 +58,16 @@ Theorem C20_model_is_fold :
   forall res qs, inserts merge_fuel res qs = fold_left insert qs (new_grid 1 1 res).
 Proof. exact inserts_fold. Qed.
 
+(* finding F14: mergeQuads as repaired fits the grid to the blended plane before taking its cells; for the exact
+   model (every stored plane inside the bounds: [Inv]) that changes nothing, so all the theorems above are about
+   the repaired code as well; in float32 the blend can land one ulp outside, which is what made InsertQuad panic *)
+Theorem C20_merge_fit_noop :
+  forall g h nq eq, Inv g -> nth_error (g_planes g) h = Some eq ->
+  pos_ext nq -> vy (qe nq) == 0 -> in_bounds g nq ->
+  merge_quads g h nq = merge_quads_cells g h nq.
+Proof. exact merge_quads_fit_noop. Qed.
+Print Assumptions C20_merge_fit_noop.
+
 (* ---- the session's grid survives joins and departures when Init creates it only with a new state *)
 Theorem C20_session_retention :
   forall ops, sess_run false ops = fold_left insert (inserted ops) (new_grid 1 1 module_resolution).
